@@ -39,7 +39,7 @@ PROPS = {
     ),
     'C03': dict(
         title='SPIKE-Sync profile marks exactly the mutually coincident spikes', level='other',
-        groups=both(['get_tau_py.P', 'get_tau_pyx.P', 'sync_py.P', 'sync_pyx.P', 'lemmas.window', 'sync_py.B', 'sync_pyx.B', 'single_py.P', 'single_pyx.P', 'single_py.B', 'single_pyx.B', 'syncval_pyx.B']),
+        groups=both(['get_tau_py.P', 'get_tau_pyx.P', 'sync_py.P', 'sync_pyx.P', 'lemmas.window', 'sync_py.B', 'sync_pyx.B', 'single_py.P', 'single_pyx.P', 'single_py.B', 'single_pyx.B', 'syncval_pyx.P', 'syncval_pyx.B']),
         technique='window routine proved (loop-free, all inputs); scan kernels: bounded symbolic execution against the pairwise definition',
         explanation='get_tau proved equal to the window of the statement for all trains and indices; the profile scan (py + extracted pyx) '
                     'proved inductively in adjacent form (an event is marked iff coincident with the preceding or the following spike of the other train), '
@@ -48,7 +48,7 @@ PROPS = {
     ),
     'C04': dict(
         title='Order / directionality sign convention', level='other',
-        groups=both(['order_py.P', 'order_pyx.P', 'dir_py.P', 'dir_pyx.P', 'lemmas.window', 'order_py.B', 'order_pyx.B', 'dir_py.B', 'dir_pyx.B', 'orderval_pyx.B', 'dirval_pyx.B', 'plumb.forms', 'plumb.degenerate']),
+        groups=both(['order_py.P', 'order_pyx.P', 'dir_py.P', 'dir_pyx.P', 'lemmas.window', 'order_py.B', 'order_pyx.B', 'dir_py.B', 'dir_pyx.B', 'orderval_pyx.P', 'orderval_pyx.B', 'dirval_pyx.P', 'dirval_pyx.B', 'plumb.forms', 'plumb.degenerate']),
         technique='bounded symbolic execution of the scan kernels against the pairwise leader/follower definition; wrappers executed on formal terms',
         explanation='order-profile and directionality scans (py + extracted pyx) proved inductively in adjacent form with the leader/follower sign, lemmas bridge to the pairwise definition; '
                     'additionally kernels vs pairwise definition (sign, zero for simultaneous / non-coincident, swap negates) bounded; values / matrix / synfire '
@@ -56,11 +56,11 @@ PROPS = {
     ),
     'C05': dict(
         title='Scalar = average of the profile', level='other',
-        groups=both(['plumb.profile_avg', 'isidist_pyx.P', 'spikedist_pyx.P', 'spikedist_ri_pyx.P', 'isidist_pyx.B', 'spikedist_pyx.B', 'syncval_pyx.B', 'orderval_pyx.B',
-                     'pwc_avrg.B', 'pwl_avrg.B', 'disc_avrg.B', 'pwc_integral.B', 'pwl_integral.B', 'disc_integral.B']),
-        technique='wrappers executed on formal terms (scalar route vs averaged profile route); compiled single-pass ISI / SPIKE distances: inductive VCs with the profile as ghost state (events, covering cursors, partial sums characterised pointwise); other single-pass routines: bounded self-composition with the profile kernels',
+        groups=both(['plumb.profile_avg', 'isidist_pyx.P', 'spikedist_pyx.P', 'spikedist_ri_pyx.P', 'isidist_pyx.B', 'spikedist_pyx.B', 'syncval_pyx.P', 'syncval_pyx.B', 'orderval_pyx.P', 'orderval_pyx.B',
+                     'pwc_avrg_none.P', 'pwc_avrg_one.P', 'pwc_avrg_list2.P', 'pwc_avrg.B', 'pwl_avrg_none.P', 'pwl_avrg_one.P', 'pwl_avrg_list2.P', 'pwl_avrg.B', 'disc_avrg_none.P', 'disc_avrg_one.P', 'disc_avrg_list2.P', 'disc_avrg.B', 'pwc_integral_none.P', 'pwc_integral_one.P', 'pwc_integral.B', 'pwl_integral_none.P', 'pwl_integral_one.P', 'pwl_integral.B', 'disc_integral_none.P', 'disc_integral_one.P', 'disc_integral.B']),
+        technique='wrappers executed on formal terms (scalar route vs averaged profile route); compiled single-pass ISI / SPIKE distances: inductive VCs with the profile as ghost state (events, covering cursors, partial sums characterised pointwise); single-pass SPIKE-Sync / order / directionality values: inductive VCs (events and partial sums as ghost state, adjacent form); all single-pass routines also bounded by self-composition with the profile kernels',
         explanation='for every entry point, call form, keyword class, emptiness pattern and interval the scalar route and the average of the '
-                    'profile route reduce to the same normal form; isi_distance_cython and spike_distance_cython (RI off / on) proved for all trains: the result is PS[n]/(t_end-t_start) where the ghost segmentation satisfies the profile postcondition of C01 / C02 and PS[k+1] = PS[k] + value(segment k) * length (trapezoid for SPIKE); compiled single-pass distances also bounded against the profile kernel; '
+                    'profile route reduce to the same normal form; isi_distance_cython and spike_distance_cython (RI off / on) proved for all trains: the result is PS[n]/(t_end-t_start) where the ghost segmentation satisfies the profile postcondition of C01 / C02 and PS[k+1] = PS[k] + value(segment k) * length (trapezoid for SPIKE); coincidence_value_cython / spike_train_order_cython / spike_directionality_cython proved for all trains: the returned sum is the sum over the events of the adjacent-form profile values (the form proved for the profile scans), the multiplicity is the number of spikes; compiled single-pass routines also bounded against the profile kernel; '
                     'avrg of each class is integral/length (C10/C11 contracts)',
     ),
     'C06': dict(
@@ -85,21 +85,21 @@ PROPS = {
     ),
     'C09': dict(
         title='Adding piecewise profiles is pointwise addition', level='other',
-        groups=both(['addpwc_py.P', 'addpwc_pyx.P', 'addpwl_py.P', 'addpwl_pyx.P', 'addpwc_py.B', 'addpwl_py.B', 'addpwl_pyx.B', 'pwc_mul.B', 'pwc_copy.B', 'pwc_add_fb.B', 'pwc_add_cy.B', 'pwl_mul.B', 'pwl_copy.B', 'pwl_add_fb.B', 'pwl_add_cy.B', 'disc_mul.B', 'disc_copy.B', 'disc_add_fb.B', 'disc_add_cy.B', 'pwc_hist_copy.B', 'pwl_hist_copy.B', 'pwc_hist_acc_fa.B', 'pwc_hist_acc_co.B', 'pwl_hist_acc_fa.B', 'pwl_hist_acc_co.B', 'pwc_hist_eval.B', 'pwl_hist_eval.B']),
-        technique='inductive VCs for the piecewise-constant and the piecewise-linear merge (py + pyx; interpolation with products / quotients abstracted to uninterpreted functions plus ground laws); bounded symbolic execution for the class methods',
+        groups=both(['addpwc_py.P', 'addpwc_pyx.P', 'addpwl_py.P', 'addpwl_pyx.P', 'addpwc_py.B', 'addpwl_py.B', 'addpwl_pyx.B', 'pwc_mul.P', 'pwc_mul.B', 'pwc_copy.P', 'pwc_copy.B', 'pwc_add_fb.P', 'pwc_add_fb.B', 'pwc_add_cy.P', 'pwc_add_cy.B', 'pwl_mul.P', 'pwl_mul.B', 'pwl_copy.P', 'pwl_copy.B', 'pwl_add_fb.P', 'pwl_add_fb.B', 'pwl_add_cy.P', 'pwl_add_cy.B', 'disc_mul.P', 'disc_mul.B', 'disc_copy.P', 'disc_copy.B', 'disc_add_fb.P', 'disc_add_fb.B', 'disc_add_cy.P', 'disc_add_cy.B', 'pwc_hist_copy.B', 'pwl_hist_copy.B', 'pwc_hist_acc_fa.B', 'pwc_hist_acc_co.B', 'pwl_hist_acc_fa.B', 'pwl_hist_acc_co.B', 'pwc_hist_eval.B', 'pwl_hist_eval.B']),
+        technique='inductive VCs for the piecewise-constant and the piecewise-linear merge (py + pyx; interpolation with products / quotients abstracted to uninterpreted functions plus ground laws); the class methods add / mul_scalar / copy for any number of pieces (add: modular over the kernel contract); bounded symbolic execution of the same methods with the kernels inlined and of operation histories',
         explanation='add_piece_wise_const and add_piece_wise_lin proved for all inputs (incl. vectorised tail copies / Cython tail loops): every result piece has covering operand pieces and both one-sided limits are the sums of the operands\' lines; the linear merge additionally bounded against the same statement with interpreted arithmetic; the '
                     'add / mul_scalar / copy methods bounded, result arrays never alias an operand; histories (add; mul_scalar; add again - copy; scale the original) executed over the real classes; frame obligations show the operand is not modified',
     ),
     'C10': dict(
         title='Integral, average and evaluation are exact', level='other',
-        groups=both(['pwc_integral.B', 'pwc_avrg.B', 'pwc_call.B', 'pwc_callseq.B', 'pwc_plot.B', 'pwl_integral.B', 'pwl_avrg.B', 'pwl_call.B', 'pwl_callseq.B', 'pwl_plot.B', 'pwc_hist_eval.B', 'pwl_hist_eval.B', 'pwc_hist_query.B', 'pwl_hist_query.B']),
-        technique='bounded symbolic execution of the real methods (searchsorted as assumed contract) against the Riemann-sum definition',
+        groups=both(['pwc_integral_none.P', 'pwc_integral_one.P', 'pwc_integral.B', 'pwc_avrg_none.P', 'pwc_avrg_one.P', 'pwc_avrg_list2.P', 'pwc_avrg.B', 'pwc_call.P', 'pwc_call.B', 'pwc_callseq.B', 'pwc_plot.P', 'pwc_plot.B', 'pwl_integral_none.P', 'pwl_integral_one.P', 'pwl_integral.B', 'pwl_avrg_none.P', 'pwl_avrg_one.P', 'pwl_avrg_list2.P', 'pwl_avrg.B', 'pwl_call.P', 'pwl_call.B', 'pwl_callseq.B', 'pwl_plot.P', 'pwl_plot.B', 'pwc_hist_eval.B', 'pwl_hist_eval.B', 'pwc_hist_query.B', 'pwl_hist_query.B']),
+        technique='integral() of both classes for any number of pieces (np.sum of a slice of symbolic length = the named finite sum SIGMA, searchsorted as assumed contract): whole pieces inside the interval + the two partial pieces; bounded symbolic execution of all methods against the literal Riemann-sum definition',
         explanation='integral vs sum over pieces of value * overlap, every position of a,b (symbolic); avrg against the contract of integral; '
                     'scalar and vectorised __call__ and plottable arrays; histories over the real classes: evaluate ; mul_scalar ; evaluate and integral/avrg ; add ; mul_scalar ; integral/avrg, each against a fresh object with the same content',
     ),
     'C11': dict(
         title='Discrete profiles add by event and integrate over open intervals', level='other',
-        groups=both(['adddisc_py.P', 'adddisc_pyx.P', 'adddisc_py.B', 'adddisc_pyx.B', 'disc_integral.B', 'disc_avrg.B', 'disc_plot.B', 'disc_smooth.B', 'disc_hist_query.B']),
+        groups=both(['adddisc_py.P', 'adddisc_pyx.P', 'adddisc_py.B', 'adddisc_pyx.B', 'disc_integral_none.P', 'disc_integral_one.P', 'disc_integral.B', 'disc_avrg_none.P', 'disc_avrg_one.P', 'disc_avrg_list2.P', 'disc_avrg.B', 'disc_plot.B', 'disc_smooth.B', 'disc_hist_query.B']),
         technique='inductive VCs for the event merge (py + pyx, cursor form); bounded symbolic execution of the kernel against the literal event-wise definition and of the methods',
         explanation='add_discrete_function proved for all inputs: cursors run from the first to the last event in steps of at most one, each advancing step emits exactly that event, values / multiplicities summed where both advance, a non-advancing operand has no event at that time, events strictly increasing; merge of events with summed values / multiplicities, open-interval selection, ratio with empty convention, k=0 plottable '
                     'data; smoothing window k>0 with concrete integer multiplicities; history integral(a,b) ; add ; mul_scalar ; integral(a,b) against a fresh object with the same content',
@@ -114,7 +114,7 @@ PROPS = {
         groups=both(['isi_py.P', 'isi_pyx.P', 'gmd_py.P', 'gmd_prof_pyx.P', 'gmd_dist_pyx.P', 'dist_at_t_py.P', 'dist_at_t_prof_pyx.P', 'dist_at_t_dist_pyx.P',
                      'get_tau_py.P', 'get_tau_pyx.P', 'addpwc_py.P', 'addpwc_pyx.P', 'sync_py.P', 'sync_pyx.P', 'order_py.P', 'order_pyx.P', 'dir_py.P', 'dir_pyx.P'] + SPIKEP + ['spike_py.B', 'spike_pyx.B', 'sync_py.B', 'sync_pyx.B',
                      'single_py.P', 'single_pyx.P', 'single_py.B', 'single_pyx.B', 'order_py.B', 'order_pyx.B', 'dir_py.B', 'dir_pyx.B', 'addpwl_py.P', 'addpwl_pyx.P', 'adddisc_py.P', 'adddisc_pyx.P', 'addpwl_py.B', 'addpwl_pyx.B',
-                     'adddisc_py.B', 'adddisc_pyx.B', 'isidist_pyx.P', 'spikedist_pyx.P', 'spikedist_ri_pyx.P', 'isidist_pyx.B', 'spikedist_pyx.B', 'syncval_pyx.B', 'orderval_pyx.B', 'dirval_pyx.B']),
+                     'adddisc_py.B', 'adddisc_pyx.B', 'isidist_pyx.P', 'spikedist_pyx.P', 'spikedist_ri_pyx.P', 'isidist_pyx.B', 'spikedist_pyx.B', 'syncval_pyx.P', 'syncval_pyx.B', 'orderval_pyx.P', 'orderval_pyx.B', 'dirval_pyx.P', 'dirval_pyx.B']),
         technique='both members of every routine pair verified against the same functional contract (P where proved, B otherwise); .pyx as mechanically extracted text',
         explanation='each pair shares one postcondition that determines the result, so agreement follows; single-pass distances against the '
                     'average of the profile kernel. The real C extension cannot be built here (no Cython): C semantics are an assumption',
@@ -179,3 +179,50 @@ PROPS = {
         assumptions=['np.random.exponential(scale, n) returns n finite reals >= 0 (nothing else is assumed about the draws); termination of the refill loop of generate_poisson_spikes is not verified'],
     ),
 }
+
+
+# ---- modularity closure -------------------------------------------------------------------------------------------
+# A group whose contract replaces a callee by the callee's CONTRACT (get_tau, get_min_dist, dist_at_t) says nothing about
+# a change inside that callee: every property that runs such a group also runs the group that verifies the callee
+# (three seeded changes in get_tau / Interpolate were first missed because a registry lacked it).
+_USES_TAU = ('sync', 'single', 'order', 'dir')
+_USES_SPIKE_CALLEES = ('spike',)
+
+
+def _close(groups):
+    out = list(groups)
+
+    def add(g):
+        if g not in out:
+            out.append(g)
+    for g in list(groups):
+        head = g.split('.')[0]
+        if g.startswith(('lemmas.', 'plumb.')):
+            continue
+        if any(t in head for t in _USES_TAU):
+            add('get_tau_py.P')
+            add('get_tau_pyx.P')
+        if any(t in head for t in _USES_SPIKE_CALLEES):
+            for x in KPY + KPYX:
+                add(x)
+            if 'spikedist' in head:
+                add('gmd_dist_pyx.P')
+                add('dist_at_t_dist_pyx.P')
+    return out
+
+
+# Every statement about the public measure functions is a statement about what they do AFTER input preparation: the
+# contract of reconcile_spike_trains (sorted, duplicate free, every input spike inside the interval kept, nothing else)
+# is part of each of them (two seeded tolerance-based de-duplications were first missed by properties without it).
+_PUBLIC_MEASURES = ('C01', 'C02', 'C03', 'C04', 'C05', 'C06', 'C07', 'C08', 'C12', 'C14', 'C15', 'C16', 'C17', 'C18')
+# C18 (no exception, finite, well formed) also covers the averaging over sub-intervals done by the profile classes
+_C18_EXTRA = ['pwc_integral_none.P', 'pwc_integral_one.P', 'pwc_integral.B', 'pwl_integral_none.P', 'pwl_integral_one.P', 'pwl_integral.B', 'disc_integral_none.P', 'disc_integral_one.P', 'disc_integral.B', 'pwc_avrg_none.P', 'pwc_avrg_one.P', 'pwc_avrg_list2.P', 'pwc_avrg.B', 'pwl_avrg_none.P', 'pwl_avrg_one.P', 'pwl_avrg_list2.P', 'pwl_avrg.B', 'disc_avrg_none.P', 'disc_avrg_one.P', 'disc_avrg_list2.P', 'disc_avrg.B', 'pwc_call.P', 'pwc_call.B', 'pwl_call.P', 'pwl_call.B']
+
+for _k, _p in PROPS.items():
+    for _tier in ('quick', 'thorough'):
+        _g = _close(_p['groups'][_tier])
+        if _k in _PUBLIC_MEASURES and 'reconcile.B' not in _g:
+            _g.append('reconcile.B')
+        if _k == 'C18':
+            _g += [x for x in _C18_EXTRA if x not in _g]
+        _p['groups'][_tier] = _g
